@@ -736,6 +736,8 @@ def parse_template(text):
                 items.append(('enumval', parse_attrs(rest)))
             elif word == 'expect':
                 items.append(('expect', parse_attrs(rest)))
+            elif word == 'restartorder':
+                items.append(('restartorder', parse_attrs(rest)))
             elif word in ('function', 'region', 'members'):
                 if cur is not None:
                     raise ExtractionError('template line %d: nested block' % (i + 1))
@@ -1009,6 +1011,85 @@ class Extractor:
                 raise ExtractionError('expect: body of %s::%s is %r, does not match %r' % (a.get('class', ''), a['name'], body, a['body']))
         self.report.setdefault('accessor_checks', []).append(dict(name=a['name'], file=a['file'], body=a['body'], definitions=len(defs)))
         return '/* accessor %s::%s checked: body matches /%s/ (%d definitions) */' % (a.get('class', ''), a['name'], a['body'], len(defs))
+
+    # ------------------------------------------------------------------
+    def restartorder(self, a):
+        """Slice extraction of a driver function: every statement that touches restart_writer / restart_reader,
+        in textual order, lowered to a tag: component NAME for objects, NAME + scalar type for plain values.
+        Emits two constant tables (write order, read order) for the harness to compare. Control flow between the
+        statements is dropped (conditional components are assumed to be present or absent on both sides alike)."""
+        src = self.src(a['file'])
+        defs = find_definitions(src, a['function'], a.get('class'), 'method' if 'class' in a else 'free')
+        if len(defs) != 1:
+            raise ExtractionError('restartorder: function %s found %d times' % (a['function'], len(defs)))
+        body = src.text[defs[0]['body_lb']:defs[0]['body_rb'] + 1]
+        # byte size and integer/floating kind decide whether the bytes written are the bytes read (LP64); the
+        # signedness of an integer of the same size does not change the value that comes back
+        canon = {'uint_fast32_t': 'int8', 'int_fast32_t': 'int8', 'uint_fast64_t': 'int8', 'size_t': 'int8', 'double': 'f64', 'bool': 'bool1',
+                 'uint_least32_t': 'int4', 'int_least32_t': 'int4', 'int': 'int4'}
+
+        def decl_type(name):
+            m = re.search(r'\b(uint_fast32_t|int_fast32_t|uint_fast64_t|size_t|double|bool|uint_least32_t|int_least32_t|int)\s+(?:\w+\s*(?:=[^;,]*)?,\s*)*' + re.escape(name) + r'\b', body)
+            if not m:
+                raise ExtractionError('restartorder: no declaration found for scalar %s' % name)
+            return m.group(1)
+        wpats = [(re.compile(r'(\w+)\s*(?:\.|->)\s*write_restart_(?:file|info)\s*\(\s*\*restart_writer\s*\)'), 'obj'),
+                 (re.compile(r'\w+::write_restart_file\s*\(\s*\*restart_writer\s*,\s*\*?(\w+)\s*\)'), 'obj'),
+                 (re.compile(r'restart_writer\s*->\s*write\s*\(\s*(\w+)\s*\)'), 'scalar')]
+        rpats = [(re.compile(r'(\w+)\s*=\s*restart_reader\s*->\s*read\s*<\s*([\w ]+?)\s*>\s*\(\s*\)'), 'scalar'),
+                 (re.compile(r'(\w+)\s*\.\s*read_restart_info\s*\(\s*\*restart_reader\s*\)'), 'obj'),
+                 (re.compile(r'(\w+)\s*=\s*(?:new\s+)?[\w:]+(?:\s*<[^;()]*>)?(?:::\w+)?\s*\(\s*\*restart_reader\s*(?:,\s*\w+\s*)?\)'), 'obj')]
+
+        def collect(pats):
+            hits = []
+            for pat, kind in pats:
+                for m in pat.finditer(body):
+                    hits.append((m.start(), kind, m))
+            hits.sort(key=lambda h: h[0])
+            seq = []
+            last = -1
+            for off, kind, m in hits:
+                if off == last:
+                    continue
+                last = off
+                if kind == 'obj':
+                    seq.append(('obj', m.group(1), ''))
+                else:
+                    nm = m.group(1)
+                    ty = m.group(2) if m.lastindex and m.lastindex >= 2 else decl_type(nm)
+                    ty = re.sub(r'\bstd::', '', ty).strip()
+                    if ty not in canon:
+                        raise ExtractionError('restartorder: scalar type %s not understood' % ty)
+                    seq.append(('scalar', nm, canon[ty]))
+            return seq
+        wseq = collect(wpats)
+        rseq = collect(rpats)
+        n_w = len(re.findall(r'restart_writer', body))
+        n_r = len(re.findall(r'restart_reader', body))
+        if not wseq or not rseq:
+            raise ExtractionError('restartorder: no restart statements found in %s' % a['function'])
+        names = {}
+
+        def code(item):
+            kind, nm, ty = item
+            key = nm + ':' + (ty if kind == 'scalar' else 'obj')
+            if key not in names:
+                names[key] = len(names) + 1
+            return names[key]
+        wc = [code(i) for i in wseq]
+        rc = [code(i) for i in rseq]
+        self.report.setdefault('restart_order', []).append(dict(function=a['function'], file=a['file'],
+                                                               written=['%s:%s' % (i[1], i[2] or 'obj') for i in wseq],
+                                                               read=['%s:%s' % (i[1], i[2] or 'obj') for i in rseq],
+                                                               mentions=dict(restart_writer=n_w, restart_reader=n_r)))
+        pre = a.get('prefix', 'drv')
+        out = ['/* restart order slice of %s (%s): written = %s */' % (a['function'], a['file'], ', '.join('%s:%s' % (i[1], i[2] or 'obj') for i in wseq)),
+               '/* read = %s */' % ', '.join('%s:%s' % (i[1], i[2] or 'obj') for i in rseq),
+               'static const int %s_written[] = {%s};' % (pre, ', '.join(str(c) for c in wc)),
+               'static const int %s_read[] = {%s};' % (pre, ', '.join(str(c) for c in rc)),
+               '#define %s_N_WRITTEN %d' % (pre.upper(), len(wc)),
+               '#define %s_N_READ %d' % (pre.upper(), len(rc))]
+        return '\n'.join(out)
 
     # ------------------------------------------------------------------
     def enumval(self, a):
@@ -1291,6 +1372,8 @@ class Extractor:
                 out.append(self.enumval(it))
             elif kind == 'expect':
                 out.append(self.expect(it))
+            elif kind == 'restartorder':
+                out.append(self.restartorder(it))
             else:
                 if it.kind == 'members':
                     txt, names = self.members(it)
